@@ -77,6 +77,10 @@ def project_state(draw, compliant_bias=True, max_files=7, git=None, expr_depth=1
                 f["table"] = dict(full, prec=pat)
                 if kind == "text" and draw(st.booleans()):
                     f["own"] = draw(info(idpool, True))
+                    if pat == "aggregate" and draw(st.integers(0, 2)) == 0:
+                        # the file says itself exactly what the table says (two sources, one expression)
+                        f["own"] = dict(f["own"], lic=list(full["lic"][:1]))
+                        f["table"] = dict(f["table"], lic=list(full["lic"][:1]))
             elif pat == "closest-partial":
                 f["table"] = dict(full, prec="closest")
                 part = draw(info(idpool))
@@ -86,6 +90,8 @@ def project_state(draw, compliant_bias=True, max_files=7, git=None, expr_depth=1
             elif pat == "dep5+header":
                 f["para"] = {"cop": full["cop"], "lic": [full["lic"][0]]}
                 f["own"] = draw(info(idpool, True))
+                if draw(st.integers(0, 2)) == 0:
+                    f["own"] = dict(f["own"], lic=[full["lic"][0]])
         else:
             f = {"path": path, "kind": kind, "style": style, "own": None, "dotlic": None, "table": None, "para": None, "unreadable": None, "block": draw(st.booleans())}
             if kind == "text" and draw(st.booleans()):
